@@ -45,7 +45,12 @@ Inductive expect :=
 Inductive case :=
 | mkCase (ops : list (op * option expect * bool))      (* operation, canary expectation, full observation available *)
          (observed : list obs)
-| mkStress (aborted : bool) (free_scans : bool).       (* F26 stress run: runtime abort on concurrent map access / scan seen without the lock *)
+| mkStress (aborted : bool) (free_scans : bool)        (* F26 stress run: runtime abort on concurrent map access / scan seen without the lock *)
+| mkRace (variant : nat) (crashed : bool) (served : bool).
+  (* forced schedule race-deliver-done: a peer's message is held at the wake-up of the
+     instance's reader while the instance is closed (0: by Done, 1: by Overlay.Close,
+     2: the flush goroutine delivers a parked message, closed by Done); process died /
+     the legitimate run afterwards was served *)
 
 (* ---- model vs observation ------------------------------------------------------ *)
 
@@ -110,8 +115,30 @@ Fixpoint replay (s : ostate) (ops : list (op * option expect * bool)) (os : list
   | _, _ => false
   end.
 
+(* the race as the model sees it: accepting a message (closing-check, append, wake-up)
+   is one critical section, so the close comes after it *)
+Definition roG : roster := mkRo 1 [mkMem 1 true; mkMem 4 true; mkMem 2 true].
+Definition race_ping (tree round : nat) : op :=
+  Recv 1 false false (MProto (Some (mkTok 1 tree 1 0 round 1)) (Some (mkTok 1 tree 1 0 round 4)) BPing).
+Definition race_ops (variant : nat) : list op :=
+  let t1 := LocalTree (mkTree 1 roG (TM 1 1 [TM 4 4 []; TM 2 2 []])) in
+  match variant with
+  | 0 => [t1; race_ping 1 11; race_ping 1 11; LocalDone (mkTok 1 1 1 0 11 4)]
+  | 1 => [t1; race_ping 1 11; race_ping 1 11]
+  | _ => [t1; race_ping 2 12;
+          Recv 1 false false (MRespTree (Some (mkTMar 2 1 [TM 1 1 [TM 4 4 [TM 2 2 []]]])) (Some roG));
+          LocalDone (mkTok 1 2 1 0 12 4)]
+  end.
+Definition race_model (variant : nat) : bool * bool :=
+  let rs := trace code_fixes init (race_ops variant) in
+  let s := run code_fixes init (race_ops variant) in
+  (existsb (fun r => negb (out_code (r_out r) =? 0)) rs,
+   delivered (mkTok 1 1 1 0 90 4) (r_events (step code_fixes s (race_ping 1 90)))).
+
 Definition agree (c : case) : bool :=
   match c with
+  | mkRace v crashed served =>
+      Bool.eqb (fst (race_model v)) crashed && (crashed || (v =? 1) || Bool.eqb (snd (race_model v)) served)
   | mkCase ops os => replay init ops os
   | mkStress aborted free_scans =>
       (* the model predicts a race only: with the repair no scan happens without the lock *)
@@ -157,6 +184,7 @@ Definition check (c : case) : list nat :=
       clause 3 (canaries_ok true ops os []) ++
       clause 4 (canaries_ok false ops os [])
   | mkStress aborted free_scans => clause 5 (negb aborted && negb free_scans)
+  | mkRace _ crashed served => clause 1 (negb crashed) ++ clause 3 (crashed || served)
   end.
 
 Definition violations (l : list case) : list (nat * nat) := viols check l.
